@@ -495,6 +495,11 @@ def _judge(case):
         if got == "raises:AssertionError" and route == "substitute" and obs.get("is_valid") is None:
             labels.append("isla_unknown:" + route)
             continue
+        if got == "raises:AssertionError" and route == "evaluate" and _some_atom_undecided_in_isla(formula, vals, names):
+            # ISLa splits the constraint at its propositional level; one of the atoms (closed by the instantiation) is
+            # answered 'unknown' by Z3's solver even with 20 s, and ThreeValuedTruth.to_bool asserts on it
+            labels.append("isla_unknown:" + route)
+            continue
         if got != exp:
             bad_routes.append(route)
     if bad_routes:
@@ -502,6 +507,23 @@ def _judge(case):
         diag = _Diag(vals)
         sigs = []
         rest = list(bad_routes)
+        # open finding 'str.to.int on a signed numeral is read sign-aware by the fast path and as -1 by Z3': the
+        # verdicts under every assignment of the two readings to the str.to.int applications on signed arguments
+        # (the all-sign-aware one is the expectation).  A route whose answer is one of them is attributed to it.
+        occ = T.signed_occurrences(term, vals) if signed else []
+        if occ and len(occ) <= 5:
+            import itertools
+            mixed = set()
+            for r in range(1, len(occ) + 1):
+                for sub in itertools.combinations(occ, r):
+                    try:
+                        mixed.add(T.decide(T.z3_parse_bool(T.to_smt(term, vals, oracle=True, plain_at=set(sub))), ORACLE_TIMEOUT_MS, solver=not hard_z3))
+                    except Exception:
+                        pass
+            for route in list(rest):
+                if isinstance(obs[route], bool) and obs[route] != exp and obs[route] in mixed:
+                    sigs.append(("str.to.int:signed_numeral_read_by_plain_z3_in_fallback", None, route))
+                    rest.remove(route)
         if "escape_like_value" in labels:
             # ISLa instantiates with z3.StringVal(str(tree)), and Z3 re-reads text that looks like an escape sequence:
             # what Z3 says about the term instantiated that way
@@ -568,6 +590,22 @@ def _judge(case):
     nontrivial = bool(hs - {"=", "lit:str", "lit:int", "lit:bool", "var"})
     return {"labels": labels, "nontrivial": nontrivial, "violations": list(viol.values()), "inconclusive": inconcl,
             "key": _key(ground_text), "sample": {"ground": ground_text[:300], "isla_text": text, "vals": vals, "z3": exp, "observed": obs}}
+
+
+def _some_atom_undecided_in_isla(formula, vals, names):
+    import z3
+    from isla import language
+    from isla.z3_helpers import is_valid
+    try:
+        atoms = [a.formula for a in language.FilterVisitor(lambda x: isinstance(x, language.SMTFormula)).collect(formula)]
+        sub = [(z3.String(n), T.mk_str(vals[n])) for n in names]
+        for a in atoms:
+            g = z3.substitute(a, *sub) if sub else a
+            if _tv(is_valid(g, timeout=20000)) is None:
+                return True
+    except Exception:
+        return False
+    return False
 
 
 def health(stats, tier):
